@@ -110,7 +110,13 @@ func nonDefaultValue(f reflect.Value, rng *rand.Rand) {
 	case reflect.Bool:
 		f.SetBool(!f.Bool())
 	case reflect.Int:
-		f.SetInt(f.Int() + int64(1+rng.Intn(5000)))
+		// small values and values at and beyond the edges of 32 bits (the setting is an int: what was put in comes out)
+		edge := []int64{1 << 31, 1<<31 - 1, 1<<32 - 1, 1 << 32, -(1 << 31) - 1, -(1 << 31), 1 << 40, -1}
+		if rng.Intn(3) == 0 {
+			f.SetInt(edge[rng.Intn(len(edge))])
+		} else {
+			f.SetInt(f.Int() + int64(1+rng.Intn(5000)))
+		}
 	case reflect.String:
 		vals := []string{"value", "with:colon:s", "späce and ünicode", "C:\\path\\x.exe /arg:1", "a", strings.Repeat("L", 3000+rng.Intn(1000)), "*", "0", "true"}
 		for {
@@ -258,6 +264,15 @@ func RunRdp(tw *TraceWriter, rng *rand.Rand, tier string, work string) (M, error
 		}
 	}
 	// ---- (4) templates: malformed lines are rejected, known settings kept, gateway-controlled ones forced
+	// an integer too large for any int is a malformed line (rejected), not some other number
+	for _, num := range []string{"99999999999999999999999999", "-99999999999999999999999999", "9223372036854775808"} {
+		fn := filepath.Join(work, fmt.Sprintf("tmpl-big-%d.rdp", rng.Int63()))
+		os.WriteFile(fn, []byte("desktopwidth:i:"+num+"\r\n"), 0600)
+		_, err := rdp.NewBuilderFromFile(fn)
+		os.Remove(fn)
+		tw.Line(M{"ev": "template", "cls": "tmpl", "text": []string{"k", "COL", "i", "COL", "k", "LF"}, "rejected": err != nil})
+		count++
+	}
 	tmplTexts := [][]string{{"k", "COL", "i", "COL", "1", "CR", "LF"}, {"k", "COL", "i", "COL", "k", "LF"}, {"k", "COL", "1", "LF"}, {"k", "LF"}, {"HASH", "k", "LF", "k", "COL", "s", "COL", "k", "LF"},
 		{"k", "COL", "s", "COL", "k", "LF", "k", "k", "LF"}, {"COL", "COL", "LF"}, {"k", "COL", "k", "COL", "k", "LF"}, {"LF", "LF"}, {}}
 	for _, tt := range tmplTexts {
